@@ -44,8 +44,15 @@ Proof.
 Qed.
 
 (** checked subtraction of one request *)
+(** every entry is positive or addresses an existing slot of a vector of length [len] *)
+Definition req_ok (len : nat) (rq : request) : Prop :=
+  Forall (fun e => 0 < snd e \/ (N.to_nat (fst e) < len)%nat) rq.
+
+Lemma request_wf_ok : forall len rq, request_wf rq -> req_ok len rq.
+Proof. intros len rq H. eapply Forall_impl; [|exact H]. intros e He. left. exact He. Qed.
+
 Lemma rv_sub_checked_ok : forall rq v,
-  request_wf rq -> (forall r, amount rq r <= rv_get v r) ->
+  req_ok (length v) rq -> (forall r, amount rq r <= rv_get v r) ->
   exists v', rv_sub_checked v rq = Some v' /\ length v' = length v
              /\ forall r, rv_get v' r = rv_get v r - amount rq r.
 Proof.
@@ -54,10 +61,12 @@ Proof.
   - inversion Hwf as [|? ? Ha Hwf']; subst. simpl in Ha.
     pose proof (H r) as Hr. unfold amount in Hr. simpl in Hr. rewrite N.eqb_refl in Hr. fold (amount t r) in Hr.
     assert (Hin : (N.to_nat r < length v)%nat).
-    { destruct (Nat.ltb_spec (N.to_nat r) (length v)); [assumption|]. rewrite rv_get_out in Hr by assumption. lia. }
+    { destruct Ha as [Ha|Ha]; [|assumption].
+      destruct (Nat.ltb_spec (N.to_nat r) (length v)); [assumption|]. rewrite rv_get_out in Hr by assumption. lia. }
     destruct (Nat.ltb_spec (N.to_nat r) (length v)) as [_|]; [|lia].
     destruct (N.leb_spec a (rv_get v r)) as [_|]; [|lia]. simpl.
-    destruct (IH (rv_set v (N.to_nat r) (rv_get v r - a)) Hwf') as (v' & E & L & G).
+    destruct (IH (rv_set v (N.to_nat r) (rv_get v r - a))) as (v' & E & L & G).
+    { unfold req_ok. rewrite rv_set_length. exact Hwf'. }
     { intros r'. rewrite rv_get_set by assumption. specialize (H r'). unfold amount in H. simpl in H. fold (amount t r') in H.
       destruct (N.eqb_spec r' r) as [->|Hne].
       - rewrite N.eqb_refl in H. lia.
@@ -74,16 +83,16 @@ Definition demand (I : inst) (rqs : list N) (r : N) : N :=
   fold_right (fun rq acc => amount (req_of I rq) r + acc) 0 rqs.
 
 Lemma sub_all_ok : forall I rqs v,
-  (forall rq, In rq rqs -> request_wf (req_of I rq)) ->
+  (forall rq, In rq rqs -> req_ok (length v) (req_of I rq)) ->
   (forall r, demand I rqs r <= rv_get v r) ->
   exists v', sub_all I v rqs = Some v' /\ forall r, rv_get v' r = rv_get v r - demand I rqs r.
 Proof.
   induction rqs as [|rq t IH]; intros v Hwf H; simpl.
   - exists v. split; [reflexivity|]. intros r. unfold demand. simpl. lia.
-  - destruct (rv_sub_checked_ok (req_of I rq) v (Hwf rq (or_introl eq_refl))) as (v1 & E & _ & G).
+  - destruct (rv_sub_checked_ok (req_of I rq) v (Hwf rq (or_introl eq_refl))) as (v1 & E & L1 & G).
     { intros r. specialize (H r). unfold demand in H. simpl in H. lia. }
     rewrite E. destruct (IH v1) as (v' & E' & G').
-    { intros rq' Hin. apply Hwf. right. assumption. }
+    { intros rq' Hin. rewrite L1. apply Hwf. right. assumption. }
     { intros r. rewrite G. specialize (H r). unfold demand in H. simpl in H. fold (demand I t r) in H. lia. }
     exists v'. split; [assumption|]. intros r. rewrite G', G. unfold demand. simpl. fold (demand I t r). lia.
 Qed.
@@ -124,7 +133,7 @@ Qed.
 Definition res_terms (I : inst) (bs : list batch) (w : worker) (r : N) : list (var * Z) :=
   concat (map (fun b =>
       match placement_kind I w b with
-      | PX => concat (map (fun e => if fst e =? r then [(VX (w_id w) (b_rq b), z (snd e))] else []) (req_of I (b_rq b)))
+      | PX => concat (map (fun e => if fst e =? r then [(VX (w_id w) (b_rq b), z (snd e))] else []) (req_of (inst_on I w) (b_rq b)))
       | PR => if 0 <? rv_get (w_free w) r then [(VR (w_id w) (b_rq b), z (rv_get (w_free w) r))] else []
       | PNone => []
       end) bs).
@@ -140,7 +149,7 @@ Proof.
 Qed.
 
 Lemma var_x_in : forall I bs i w b, In b bs -> placement_kind I w b = PX ->
-  In (EVar (VX (w_id w) (b_rq b)) KNat (z (x_weight I i (b_rq b)))) (worker_entries I bs i w).
+  In (EVar (VX (w_id w) (b_rq b)) KNat (z (x_weight (inst_on I w) i (b_rq b)))) (worker_entries I bs i w).
 Proof.
   intros I bs i w b Hb Hk. unfold worker_entries. apply in_or_app. left.
   apply in_concat. eexists. split; [apply in_map_iff; exists b; split; [reflexivity|assumption]|].
@@ -178,7 +187,7 @@ Qed.
 (** what the tasks placed on [w] by the solution use of resource [r] *)
 Definition placed_amount (I : inst) (bs : list batch) (s : sol) (w : worker) (r : N) : Z :=
   fold_right (fun b acc =>
-    ((match placement_kind I w b with PX => z (amount (req_of I (b_rq b)) r) * s (VX (w_id w) (b_rq b)) | _ => 0 end) + acc)%Z)
+    ((match placement_kind I w b with PX => z (amount (req_of (inst_on I w) (b_rq b)) r) * s (VX (w_id w) (b_rq b)) | _ => 0 end) + acc)%Z)
     0%Z bs.
 
 Lemma res_row_bound : forall I bs m s w r,
@@ -219,7 +228,7 @@ Definition rqs_on (I : inst) (d : dispatch) (wid : N) : list N :=
                           match find_task (ready_tasks I) (fst p) with Some t => [t_rq t] | None => [] end
                         else []) d).
 
-Lemma free_after_eq : forall I d w, free_after I d w = sub_all I (w_free w) (rqs_on I d (w_id w)).
+Lemma free_after_eq : forall I d w, free_after I d w = sub_all (inst_on I w) (w_free w) (rqs_on I d (w_id w)).
 Proof. reflexivity. Qed.
 
 Lemma sum_indicator : forall (f : N -> N) l x, NoDup l -> In x l ->
@@ -288,16 +297,58 @@ Qed.
 Record inst_wf (I : inst) : Prop := {
   wf_ids : NoDup (map w_id (i_workers I));
   wf_req : forall c, In c (i_classes I) ->
-           request_wf (rc_entries c) /\ Forall (fun e => fst e < i_nres I) (rc_entries c)
+           request_wf (rc_entries c) /\ Forall (fun e => fst e < i_nres I) (rc_entries c);
+  wf_all : forall c, In c (i_classes I) -> Forall (fun r => r < i_nres I) (rc_all c)
 }.
 
 Lemma req_of_wf : forall I rq, inst_wf I ->
   request_wf (req_of I rq) /\ Forall (fun e => fst e < i_nres I) (req_of I rq).
 Proof.
   intros I rq Hwf. unfold req_of, class_of.
-  destruct (nth_in_or_default (N.to_nat rq) (i_classes I) {| rc_entries := []; rc_min_time := 0 |}) as [Hin | ->].
+  destruct (nth_in_or_default (N.to_nat rq) (i_classes I) {| rc_entries := []; rc_min_time := 0; rc_all := [] |}) as [Hin | ->].
   - apply (wf_req I Hwf). assumption.
   - simpl. split; constructor.
+Qed.
+
+(** the demand of a class on a worker ([All] entries resolved to the worker's total) *)
+Lemma class_of_on : forall I w rq, class_of (inst_on I w) rq = class_on (w_res w) (class_of I rq).
+Proof.
+  intros I w rq. unfold class_of. cbn [inst_on i_classes].
+  change {| rc_entries := []; rc_min_time := 0; rc_all := [] |}
+    with (class_on (w_res w) {| rc_entries := []; rc_min_time := 0; rc_all := [] |}) at 1.
+  apply map_nth.
+Qed.
+
+Lemma req_on_eq : forall I w rq,
+  req_of (inst_on I w) rq = req_of I rq ++ map (fun r => (r, rv_get (w_res w) r)) (rc_all (class_of I rq)).
+Proof. intros. unfold req_of. rewrite class_of_on. reflexivity. Qed.
+
+Lemma class_all_bound : forall I rq, inst_wf I -> Forall (fun r => r < i_nres I) (rc_all (class_of I rq)).
+Proof.
+  intros I rq Hwf. unfold class_of.
+  destruct (nth_in_or_default (N.to_nat rq) (i_classes I) {| rc_entries := []; rc_min_time := 0; rc_all := [] |}) as [Hin | ->].
+  - apply (wf_all I Hwf). assumption.
+  - constructor.
+Qed.
+
+Lemma req_on_bound : forall I w rq, inst_wf I -> Forall (fun e => fst e < i_nres I) (req_of (inst_on I w) rq).
+Proof.
+  intros I w rq Hwf. rewrite req_on_eq. apply Forall_app. split; [apply req_of_wf; assumption|].
+  pose proof (class_all_bound I rq Hwf) as Ha. induction Ha; simpl; constructor; auto.
+Qed.
+
+(** a class that may be placed on [w] addresses only existing slots of [w]'s free vector *)
+Lemma placeable_req_ok : forall I w rq, inst_wf I -> placeable I w rq = true ->
+  req_ok (length (w_free w)) (req_of (inst_on I w) rq).
+Proof.
+  intros I w rq Hwf Hp. rewrite req_on_eq. apply Forall_app. split.
+  - apply request_wf_ok. apply req_of_wf. assumption.
+  - unfold placeable in Hp. apply andb_true_iff in Hp. destruct Hp as [_ Hc].
+    unfold min_req in Hc. apply capable_res_spec in Hc. apply Forall_app in Hc. destruct Hc as [_ Hc].
+    induction (rc_all (class_of I rq)) as [|r t IH]; simpl; [constructor|].
+    inversion Hc as [|? ? H1 Ht]; subst. constructor; [|apply IH; assumption].
+    right. simpl in *. destruct (Nat.ltb_spec (N.to_nat r) (length (w_free w))); [assumption|].
+    rewrite rv_get_out in H1 by assumption. lia.
 Qed.
 
 Lemma amount_out : forall rq r n, Forall (fun e => fst e < n) rq -> n <= r -> amount rq r = 0.
@@ -327,11 +378,12 @@ Qed.
 Lemma weighted_placed : forall I (s : sol) d w r l,
   (forall b, In b l -> count_on I d (w_id w) (b_rq b) = if placeable I w (b_rq b) then sol_x s (w_id w) (b_rq b) else 0) ->
   (forall b, In b l -> placement_kind I w b = PX -> (0 <= s (VX (w_id w) (b_rq b)))%Z) ->
-  z (weighted I d (w_id w) r (map b_rq l)) = placed_amount I l s w r.
+  z (weighted (inst_on I w) d (w_id w) r (map b_rq l)) = placed_amount I l s w r.
 Proof.
   intros I s d w r. unfold weighted, placed_amount. induction l as [|b t IH]; intros Hcnt Hx; [reflexivity|].
   cbn [map fold_right]. unfold z in *. rewrite N2Z.inj_add, N2Z.inj_mul.
   rewrite IH; [|intros; apply Hcnt; right; assumption|intros; apply Hx; [right|]; assumption].
+  change (count_on (inst_on I w) d (w_id w) (b_rq b)) with (count_on I d (w_id w) (b_rq b)).
   rewrite (Hcnt b (or_introl eq_refl)).
   destruct (placement_kind I w b) eqn:Ek.
   - pose proof (proj1 (placement_px I w b) Ek) as Hp. rewrite Hp.
@@ -351,8 +403,8 @@ Theorem feasible_no_overbook : forall I bs m s d,
   milp_of I bs = Ok m -> feasible m s = true -> mapping_ok I bs s d = true ->
   forall w, In w (i_workers I) ->
     (exists v, free_after I d w = Some v
-               /\ forall r, rv_get v r = rv_get (w_free w) r - demand I (rqs_on I d (w_id w)) r)
-    /\ (forall r, demand I (rqs_on I d (w_id w)) r <= rv_get (w_free w) r)
+               /\ forall r, rv_get v r = rv_get (w_free w) r - demand (inst_on I w) (rqs_on I d (w_id w)) r)
+    /\ (forall r, demand (inst_on I w) (rqs_on I d (w_id w)) r <= rv_get (w_free w) r)
     /\ (forall rq, In rq (rqs_on I d (w_id w)) -> placeable I w rq = true).
 Proof.
   intros I bs m s d Hwf Hnd Hm Hf Hmap w Hw.
@@ -373,24 +425,9 @@ Proof.
     destruct (take_tasks _ _) as [[taken q']| |]; try discriminate.
     apply andb_true_iff in Hcounts. destruct Hcounts as [_ Hc]. rewrite forallb_forall in Hc.
     specialize (Hc w Hw). apply N.eqb_eq in Hc. rewrite Hc, (has_x_placeable I bs w b Hb). reflexivity. }
-  (* demand = sum over the batches of count * amount <= free (resource row) *)
-  assert (Hdem : forall r, demand I (rqs_on I d (w_id w)) r <= rv_get (w_free w) r).
-  { intros r. destruct (N.ltb_spec r (i_nres I)) as [Hr|Hr].
-    - rewrite (demand_count I (w_id w) (map b_rq bs) r d Hnd Hin).
-      pose proof (res_row_bound I bs m s w r Hm Hf Hw Hr) as Hb.
-      assert (Heq : z (weighted I d (w_id w) r (map b_rq bs)) = placed_amount I bs s w r).
-      { apply weighted_placed; [assumption|].
-        intros b Hb' Hk. destruct (worker_entries_in I bs m w Hm Hw) as (i & Hi).
-        pose proof (feasible_in m s _ Hf (Hi _ (var_x_in I bs i w b Hb' Hk))) as H. simpl in H. lia. }
-      unfold z in *. lia.
-    - assert (Hz : demand I (rqs_on I d (w_id w)) r = 0).
-      { generalize (rqs_on I d (w_id w)). intros l. induction l as [|rq t IH]; [reflexivity|].
-        unfold demand. simpl. fold (demand I t r). rewrite IH.
-        rewrite (amount_out _ r (i_nres I)); [lia|apply req_of_wf; assumption|lia]. }
-      rewrite Hz. lia. }
-  split; [|split; [assumption|]].
-  - rewrite free_after_eq. apply sub_all_ok; [|assumption]. intros rq _. apply req_of_wf. assumption.
-  - intros rq Hrq. pose proof (Hin rq Hrq) as Hb. apply in_map_iff in Hb. destruct Hb as (b & <- & Hb).
+  (* tasks are only placed where the class is placeable *)
+  assert (Hpl : forall rq, In rq (rqs_on I d (w_id w)) -> placeable I w rq = true).
+  { intros rq Hrq. pose proof (Hin rq Hrq) as Hb. apply in_map_iff in Hb. destruct Hb as (b & <- & Hb).
     specialize (Hcnt b Hb). destruct (placeable I w (b_rq b)); [reflexivity|].
     (* count = 0 contradicts the task being there *)
     exfalso. clear - Hrq Hcnt. unfold rqs_on in Hrq. unfold count_on in Hcnt.
@@ -399,7 +436,26 @@ Proof.
     destruct (find_task (ready_tasks I) (fst p)) as [t|] eqn:Ef; [|contradiction]. destruct Hrq as [E|[]].
     assert (Hf : In p (filter (fun p0 => (snd p0 =? w_id w) && match find_task (ready_tasks I) (fst p0) with Some t0 => t_rq t0 =? b_rq b | None => false end) d)).
     { apply filter_In. split; [assumption|]. rewrite Ew, Ef, E, N.eqb_refl. reflexivity. }
-    destruct (filter _ d); [contradiction|]. unfold nlen in Hcnt. simpl in Hcnt. lia.
+    destruct (filter _ d); [contradiction|]. unfold nlen in Hcnt. simpl in Hcnt. lia. }
+  (* demand (an [All] entry = the worker's total) = sum over the batches of count * amount <= free (resource row) *)
+  assert (Hdem : forall r, demand (inst_on I w) (rqs_on I d (w_id w)) r <= rv_get (w_free w) r).
+  { intros r. destruct (N.ltb_spec r (i_nres I)) as [Hr|Hr].
+    - pose proof (demand_count (inst_on I w) (w_id w) (map b_rq bs) r d Hnd Hin) as Hdc.
+      change (rqs_on (inst_on I w) d (w_id w)) with (rqs_on I d (w_id w)) in Hdc. rewrite Hdc.
+      pose proof (res_row_bound I bs m s w r Hm Hf Hw Hr) as Hb.
+      assert (Heq : z (weighted (inst_on I w) d (w_id w) r (map b_rq bs)) = placed_amount I bs s w r).
+      { apply weighted_placed; [assumption|].
+        intros b Hb' Hk. destruct (worker_entries_in I bs m w Hm Hw) as (i & Hi).
+        pose proof (feasible_in m s _ Hf (Hi _ (var_x_in I bs i w b Hb' Hk))) as H. simpl in H. lia. }
+      unfold z in *. lia.
+    - assert (Hz : demand (inst_on I w) (rqs_on I d (w_id w)) r = 0).
+      { generalize (rqs_on I d (w_id w)). intros l. induction l as [|rq t IH]; [reflexivity|].
+        unfold demand. simpl. fold (demand (inst_on I w) t r). rewrite IH.
+        rewrite (amount_out _ r (i_nres I)); [lia|apply req_on_bound; assumption|lia]. }
+      rewrite Hz. lia. }
+  split; [|split; assumption].
+  rewrite free_after_eq. apply sub_all_ok; [|assumption].
+  intros rq Hrq. apply placeable_req_ok; [assumption|]. apply Hpl. assumption.
 Qed.
 
 
@@ -505,8 +561,8 @@ Theorem C05_feasible_no_overbook_thm : forall I bs m s d,
   create_task_batches I = Ok bs -> milp_of I bs = Ok m -> feasible m s = true -> mapping_ok I bs s d = true ->
   forall w, In w (i_workers I) ->
     (exists v, free_after I d w = Some v
-               /\ forall r, rv_get v r = rv_get (w_free w) r - demand I (rqs_on I d (w_id w)) r)
-    /\ (forall r, demand I (rqs_on I d (w_id w)) r <= rv_get (w_free w) r)
+               /\ forall r, rv_get v r = rv_get (w_free w) r - demand (inst_on I w) (rqs_on I d (w_id w)) r)
+    /\ (forall r, demand (inst_on I w) (rqs_on I d (w_id w)) r <= rv_get (w_free w) r)
     /\ (forall rq, In rq (rqs_on I d (w_id w)) -> placeable I w rq = true).
 Proof.
   intros I bs m s d Hwf Hb. apply feasible_no_overbook; [assumption|]. apply create_task_batches_nodup with (I := I). assumption.
